@@ -116,10 +116,117 @@ def cmac_rows(check, repo):
             cite="SP 800-38B 6.2 steps 4-5"))
 
 
+FRESH = [
+    # module, arguments given to new() both times
+    ("KMAC128", {"key": bytes(range(32))}), ("KMAC256", {"key": bytes(range(32))}),
+    ("TupleHash128", {}), ("TupleHash256", {}),
+    ("SHAKE128", {}), ("SHAKE256", {}), ("TurboSHAKE128", {}), ("TurboSHAKE256", {}), ("TurboSHAKE128", {"domain": 0x07}), ("TurboSHAKE256", {"domain": 0x7F}),
+    ("SHA3_224", {}), ("SHA3_256", {}), ("SHA3_384", {}), ("SHA3_512", {}), ("SHA3_256", {"update_after_digest": True}),
+    ("keccak", {"digest_bits": 256}), ("keccak", {"digest_bits": 512}),
+    ("BLAKE2b", {"digest_bits": 256}), ("BLAKE2b", {"digest_bits": 512}), ("BLAKE2s", {"digest_bits": 128}), ("BLAKE2s", {"digest_bits": 256}),
+    ("SHA512", {"truncate": "256"}), ("SHA512", {"truncate": "224"}), ("SHA512", {}), ("KangarooTwelve", {}),
+    ("SHA1", {}), ("SHA224", {}), ("SHA256", {}), ("SHA384", {}), ("MD2", {}), ("MD4", {}), ("MD5", {}), ("RIPEMD160", {}),
+]
+
+
+def fresh_instance_rows(check, repo):
+    """`h.new(...)` ("return a fresh instance of this hash object"): the object it builds must be the same algorithm
+    variant as h.  Several classes are shared by two modules (KMAC_Hash by KMAC128/KMAC256, TupleHash, cSHAKE_XOF,
+    TurboSHAKE, SHA512Hash by the truncated variants); what distinguishes the variants is what reaches the native
+    layer at construction - keccak_init(capacity, rounds), the absorbed SP 800-185 prefix (rate!), SHA512_init(digest
+    size), blake2_init(digest size) - and the published attributes (oid, digest_size).  M.new(args) and
+    M.new(args).new(args) are interpreted and those two signatures compared."""
+    n = 0
+    for m, kwargs in FRESH:
+        mod = repo.module(H + m)
+        fn = repo.func(mod, "new")
+        a = fn.args
+
+        def seeds_for(f, kw, method=False):
+            ar = f.args
+            pos = [x.arg for x in ar.args][1 if method else 0:]
+            if ar.kwarg and not pos:
+                sd = {ar.kwarg.arg: dict(kw)}
+            else:
+                sd = dict((k, v) for k, v in kw.items() if k in pos)
+                if ar.kwarg:
+                    sd[ar.kwarg.arg] = dict((k, v) for k, v in kw.items() if k not in pos)
+            if ar.vararg:
+                sd[ar.vararg.arg] = ()
+            return sd
+
+        def signature(events, st, o):
+            sig = []
+            for e in events:
+                if e.kind != "ffi":
+                    continue
+                nm = e.name.split(".")[-1]
+                if nm.endswith("_destroy"):
+                    continue
+                args = []
+                for x in e.args[0]:
+                    if isinstance(x, bool) or isinstance(x, int):
+                        args.append(x)
+                    elif isinstance(x, (bytes, bytearray)):
+                        args.append(bytes(x))
+                sig.append((nm, tuple(args)))
+            # the construction of the returned object starts at the last native *_init (some module-level new()
+            # functions build a throw-away instance first)
+            last = max([k for k, x in enumerate(sig) if x[0].endswith("_init")] or [0])
+            sig = sig[last:]
+            h = st.heap.get(o.ident, {}) if hasattr(o, "ident") else {}
+            attrs = dict((k, v) for k, v in h.items() if k in ("oid", "digest_size", "block_size", "_padding", "_capacity", "_domain", "_truncate", "_bitlength", "_update_after_digest", "_rate", "_custom"))
+            return sig, attrs, (o.cnode.name if getattr(o, "cnode", None) is not None else None)
+        it = Interp(repo, max_depth=8)
+        st = State()
+        res = it.run(mod, fn, seeds_for(fn, kwargs), state=st, bind_defaults=True)
+        rets = res.returns()
+        key = "K|fresh.%s%s" % (m, "".join(".%s" % v for v in kwargs.values() if isinstance(v, (int, str))))
+        if len(rets) != 1 or not hasattr(rets[0].value, "ident"):
+            raise AnalysisError("%s.new(%r) could not be interpreted to one object (%d exits)" % (m, kwargs, len(rets)))
+        o1, st1 = rets[0].value, rets[0].state
+        sig1 = signature(res.events, st1, o1)
+        r = repo.find_method(o1.mod, o1.cnode, "new") if o1.cnode is not None else None
+        if r is None:
+            continue
+        m2, f2 = r
+        it2 = Interp(repo, max_depth=8)
+        res2 = it2.run(m2, f2, seeds_for(f2, kwargs, method=True), self_obj=o1, state=st1.copy() if hasattr(st1, "copy") else st1, bind_defaults=True)
+        rets2 = res2.returns()
+        n += 1
+        if len(rets2) != 1 or not hasattr(rets2[0].value, "ident"):
+            check.ob("K", key, False, m2.path, f2.lineno, extracted="%d normal exits, raises %s" % (len(rets2), res2.raise_classes()),
+                     expected="h.new() returns one fresh object")
+            continue
+        sig2 = signature(res2.events, rets2[0].state, rets2[0].value)
+        diffs = []
+        if sig1[2] != sig2[2]:
+            diffs.append("class %s instead of %s" % (sig2[2], sig1[2]))
+        for k in sorted(set(sig1[1]) | set(sig2[1])):
+            if sig1[1].get(k) != sig2[1].get(k):
+                diffs.append("%s = %r instead of %r" % (k, sig2[1].get(k), sig1[1].get(k)))
+        if sig1[0] != sig2[0]:
+            d = [(x, y) for x, y in zip(sig1[0], sig2[0]) if x != y]
+            if d:
+                (x, y) = d[0]
+                diffs.append("native %s%r instead of %s%r" % (y[0], tuple(v if isinstance(v, int) else v[:12].hex() + ".." for v in y[1]),
+                                                              x[0], tuple(v if isinstance(v, int) else v[:12].hex() + ".." for v in x[1])))
+            else:
+                diffs.append("%d native calls instead of %d" % (len(sig2[0]), len(sig1[0])))
+        check.ob("K", key, not diffs, m2.path, f2.lineno,
+                 extracted=("%s.new(..).new(..) differs from %s.new(..): " % (m, m) + "; ".join(diffs[:3])) if diffs else
+                 "same class, attributes %s and %d native construction calls" % (sorted(sig1[1].items()), len(sig1[0])),
+                 expected="the object returned by h.new() is the algorithm variant of h (same native parameters, same absorbed prefix, same oid / digest size)")
+    check.count("fresh_instance_rows", n)
+    if n < 25:
+        raise AnalysisError("only %d hash classes with an object-level new() found (confirmed: 30 rows)" % n)
+
+
 def run(check, ctx):
     repo = ctx.repo
     hmac_rows(check, repo)
     cmac_rows(check, repo)
+    fresh_instance_rows(check, repo)
     # ---- V: MAC verification ---------------------------------------------------------------
     macs = [("HMAC", "HMAC"), ("CMAC", "CMAC"), ("Poly1305", "Poly1305_MAC"), ("KMAC128", "KMAC_Hash"),
             ("BLAKE2b", "BLAKE2b_Hash"), ("BLAKE2s", "BLAKE2s_Hash")]
